@@ -5,6 +5,9 @@ CONSTANTS
   EmitUnlocked = FALSE
   StallFire = TRUE
   FixedTimer = TRUE
+  Split = FALSE
+  PeekStop = TRUE
+  WireGaps = FALSE
 SPECIFICATION GSpec
 INVARIANT GoalLateAfterEOF
 CHECK_DEADLOCK FALSE
